@@ -29,6 +29,19 @@ CLAIMED = {
              "bound against its real signature, so a mis-bound argument is a TypeError): what they return is not decided.",
         technique="contract-based deductive verification: VCs from the real AST over a column-wise table model, z3 + cvc5",
         design="5/C18"),
+    "C12": dict(
+        text="levenshtein_neighbors / hamming_neighbors: every yield is a one-edit / one-substitution variant (index form), every such variant over the "
+             "alphabet is yielded (run-start witnesses, proved by induction lemmas) and none twice, for all strings and alphabets of distinct letters. "
+             "Utilities, for an arbitrary neighbourhood callable abstracted to the set it yields: next_nearest_neighbors = everything reachable in "
+             "1..maxdistance steps except x (maxdistance 1, 2, 3); isdist1 true iff some yielded neighbour is a reference; calculate_neighbor_numbers[k] "
+             "= number of distinct yielded neighbours among the references (default: the given sequences); find_neighbor_pairs_index = exactly the "
+             "(i, first position of a yielded neighbour) pairs, each once; _isdist2_hamming (and, thorough tier, _isdist3_hamming) true iff a variant "
+             "with two (three) substitutions at increasing positions by other amino-acid letters is a reference; nndist_hamming = 0 for a reference, "
+             "else the smallest such k <= 3 cut off at maxdist, 4 if none, NotImplementedError iff maxdist > 4.",
+        note=NOTE_COMMON + " find_neighbor_pairs is covered by a BOUNDED stand-in only (state-carrying loop over sorted()); _isdist3_hamming is discharged "
+             "in the thorough tier only. Index form <-> true Hamming / Levenshtein distance: Lean lemmas (hand-transcribed statements).",
+        technique="contract-based deductive verification: VCs from the real AST (search-loop rule with nested witnesses, induction lemmas), cvc5 + z3, Lean lemmas",
+        design="5/C12"),
     "C15": dict(
         text="graph_clustering ('cc', 'fastgreedy', 'multilevel', 'leiden'; the method name reaches igraph through eval of an f-string, which the "
              "generator evaluates on each path) is verified, for every neighbour list including the EMPTY one and list / ndarray / Series node labels, "
